@@ -206,6 +206,19 @@ m('M127-fri-fold-skipped-on-guard', ['C13'], (F, "\t\toldEval = f.computeEvaluat
 m('M128-fri-final-compare-blended', ['C13'], (F, "\tf.gl.AssertIsEqual(oldEval[0], finalPolyEval[0])\n", "\tf.gl.AssertIsEqual(gl.NewVariable(f.api.Select(f.api.IsZero(proof.FinalPoly.Coeffs[0][1].Limb), finalPolyEval[0].Limb, oldEval[0].Limb)), finalPolyEval[0])\n"))
 m('M129-fri-fold-via-helper-keeping-old', ['C13'], (F, "\t\toldEval = f.computeEvaluation(\n\t\t\tsubgroupX,\n\t\t\txIndexWithinCosetBits,\n\t\t\tarityBits,\n\t\t\tevals,\n\t\t\tchallenges.FriBetas[i],\n\t\t)\n", "\t\toldEval = f.nextEval(oldEval, f.computeEvaluation(\n\t\t\tsubgroupX,\n\t\t\txIndexWithinCosetBits,\n\t\t\tarityBits,\n\t\t\tevals,\n\t\t\tchallenges.FriBetas[i],\n\t\t), evals)\n"), (F, "func (f *Chip) VerifyFriProof(", "func (f *Chip) nextEval(prev, folded gl.QuadraticExtensionVariable, evals []gl.QuadraticExtensionVariable) gl.QuadraticExtensionVariable {\n\tskip := f.api.IsZero(evals[0][0].Limb)\n\treturn gl.QuadraticExtensionVariable{\n\t\tgl.NewVariable(f.api.Select(skip, prev[0].Limb, folded[0].Limb)),\n\t\tgl.NewVariable(f.api.Select(skip, prev[1].Limb, folded[1].Limb)),\n\t}\n}\n\nfunc (f *Chip) VerifyFriProof("))
 
+m('M130-pow-check-on-selected-value', ['C14'], (F, "\tf.gl.RangeCheckWithMaxBits(powWitness, 64-friConfig.ProofOfWorkBits)", "\tguarded := gl.NewVariable(f.api.Select(f.api.IsZero(f.api.Sub(powWitness.Limb, 1)), 0, powWitness.Limb))\n\tf.gl.RangeCheckWithMaxBits(guarded, 64-friConfig.ProofOfWorkBits)"))
+m('M131-sweep-check-on-selected-value', ['C17'], (V, "\tc.glChip.RangeCheck(proof.OpeningProof.PowWitness)", "\tc.glChip.RangeCheck(gl.NewVariable(c.api.Select(c.api.IsZero(proof.OpeningProof.PowWitness.Limb), 0, proof.OpeningProof.PowWitness.Limb)))"))
+
+m('M132-plonk-identity-guarded', ['C16'], (P, "\t\tglApi.AssertIsEqualExtension(vanishingPolysZeta[i], prod)", "\t\tskip := p.api.IsZero(openings.QuotientPolys[quotientPolysStartIdx][1].Limb)\n\t\tlhs := gl.QuadraticExtensionVariable{\n\t\t\tgl.NewVariable(p.api.Select(skip, prod[0].Limb, vanishingPolysZeta[i][0].Limb)),\n\t\t\tgl.NewVariable(p.api.Select(skip, prod[1].Limb, vanishingPolysZeta[i][1].Limb)),\n\t\t}\n\t\tglApi.AssertIsEqualExtension(lhs, prod)"))
+
+m('M133-fri-initial-eval-from-step-claim', ['C13'], (F, "\tfor i, arityBits := range f.friParams.ReductionArityBits {\n\t\tevals := roundProof.Steps[i].Evals\n", "\tif len(roundProof.Steps) > 0 {\n\t\tfirst := roundProof.Steps[0].Evals[0]\n\t\tkeep := f.api.IsZero(first[1].Limb)\n\t\toldEval = gl.QuadraticExtensionVariable{\n\t\t\tgl.NewVariable(f.api.Select(keep, first[0].Limb, oldEval[0].Limb)),\n\t\t\tgl.NewVariable(f.api.Select(keep, first[1].Limb, oldEval[1].Limb)),\n\t\t}\n\t}\n\tfor i, arityBits := range f.friParams.ReductionArityBits {\n\t\tevals := roundProof.Steps[i].Evals\n"))
+
+m('M134-merkle-chain-starts-from-selected-value', ['C12'], (F, "\tcurrentDigest := f.poseidonBN254Chip.HashOrNoop(leafData)\n", "\tcurrentDigest := f.poseidonBN254Chip.HashOrNoop(leafData)\n\tif len(proof.Siblings) > 0 {\n\t\tcurrentDigest = f.api.Select(f.api.IsZero(leafData[0].Limb), proof.Siblings[0], currentDigest)\n\t}\n"))
+
+m('M135-bn-sponge-short-input-shortcut', ['C10'], (PB, "func (c *BN254Chip) HashNoPad(input []gl.Variable) BN254HashOut {\n", "func (c *BN254Chip) HashNoPad(input []gl.Variable) BN254HashOut {\n\tif len(input) <= BN254_SPONGE_RATE {\n\t\treturn c.HashOrNoop(input)\n\t}\n"))
+m('M136-decoder-skips-round-without-steps', ['C19'], (VD, "\t\tnumEvalProofs := len(openingProofRaw.QueryRoundProofs[i].InitialTreesProof.EvalsProofs)\n", "\t\tnumEvalProofs := len(openingProofRaw.QueryRoundProofs[i].InitialTreesProof.EvalsProofs)\n\t\tif numEvalProofs == 0 || len(openingProofRaw.QueryRoundProofs[i].Steps) == 0 {\n\t\t\tcontinue\n\t\t}\n"))
+m('M137-permutation-closing-link-inside-loop', ['C16'], (P, "\tproductAccs = append(productAccs, openings.PlonkZsNext[challengeNum])\n", "\tif numPartProds > 0 {\n\t\tproductAccs = append(productAccs, openings.PlonkZsNext[challengeNum])\n\t} else {\n\t\tproductAccs = append(productAccs, openings.PlonkZs[challengeNum])\n\t}\n"))
+
 # ---- behaviour-preserving refactors: must stay silent on every property
 ALL = ['C01', 'C02', 'C03', 'C04', 'C05', 'C06', 'C07', 'C08', 'C09', 'C10', 'C11', 'C12', 'C13', 'C14', 'C15', 'C16', 'C17', 'C18', 'C19', 'C20']
 m('R02-inline-assertLeadingZeros', [], (F, "\tf.assertLeadingZeros(friChallenges.FriPowResponse, f.friParams.Config)\n", "\tf.gl.RangeCheckWithMaxBits(friChallenges.FriPowResponse, 64-f.friParams.Config.ProofOfWorkBits)\n"))
